@@ -141,13 +141,45 @@ def run(args):
                 import re as _re
                 chk.violation(dict(kind=res[0], options='+'.join(oset) or 'none', error_class=_re.sub(r'[0-9]+', 'N', res[1])[:80]), dict(module=text, detail=res[1], asn1c_opts=[OPTS[n] for n in oset], asn1c_mode='(full emission, no -R)'))
     shutil.rmtree(os.path.join(build.BUILD, 'c10full-%d' % os.getpid()), ignore_errors=True)
+    # ---- modules with injected semantic errors (gen/faults.py): asn1c must exit by status; whatever it accepts must compile
+    from gen import faults
+
+    def fault_one(item):
+        i, (label, text, expect_ok) = item
+        d = os.path.join(build.BUILD, 'c10fault-%d' % os.getpid(), 'f%d' % i)
+        shutil.rmtree(d, ignore_errors=True)
+        try:
+            build.gen_types(text, ['T'], d, flavour='plain', extra_cflags=STRICT)
+            res = ('accepted', None)
+        except build.BuildError as e:
+            if getattr(e, 'stage', '') == 'asn1c':
+                res = ('asn1c_killed_by_signal', str(e)[:300]) if e.returncode < 0 else (('rejected', None) if str(e).split('): ', 1)[-1].strip() else ('rejected_without_diagnostic', str(e)[:200]))
+            else:
+                first = next((l for l in str(e).split('\n') if 'error' in l), str(e)[:200])
+                res = ('accepted_module_does_not_compile', first[:300])
+        shutil.rmtree(d, ignore_errors=True)
+        return label, text, res
+    fl = faults.fault_modules(args.tier)
+    fst = dict(modules=len(fl), accepted=0, rejected=0, failed=0)
+    with ThreadPoolExecutor(build.JOBS) as ex:
+        for label, text, (kind, detail) in ex.map(fault_one, list(enumerate(fl))):
+            programs += 1
+            if kind == 'accepted':
+                fst['accepted'] += 1
+            elif kind == 'rejected':
+                fst['rejected'] += 1
+            else:
+                fst['failed'] += 1
+                chk.violation(dict(kind=kind, options='none', label='fault:' + label.split('/')[0]), dict(module=text, detail=detail, asn1c_mode='-R', fault=label))
+    stats['fault_injection'] = fst
+    shutil.rmtree(os.path.join(build.BUILD, 'c10fault-%d' % os.getpid()), ignore_errors=True)
     cov = dict(evaluations=programs, distinct_nontrivial=len(distinct), programs=programs,
                rule='every type of families %s compiled under %d option sets (none, each single option of {%s}, %s): asn1c must exit normally; status 0 => the emitted '
                     'C compiles with %s, links with the skeleton library and a table referencing every asn_DEF_*, all emitted headers pass g++ -fsyntax-only, and the '
                     'descriptor lint (member offsets inside struct_size, tag2el sorted and in range, oms in range, first_extension consistent, mandatory op entries) passes; '
                     'additionally a selection of 40-type modules is emitted in full (no -R) under several option sets and built ONLY from the files asn1c copied, with the emitted '
                     'converter-example.mk, and the resulting converter must reproduce a reference DER value (covers asn1c_save.c and skeletons/file-dependencies); '
-                    'non-zero exit => a diagnostic on stderr. Failing 40-type modules are bisected to the single offending type. non-trivial = (option set, composite type)' % (
+                    'the single-fault modules of gen/faults.py (duplicate identifiers / enumeration items at every pair of positions of every layout, dangling references) are compiled too: exit by status, and any that asn1c accepts must compile; non-zero exit => a diagnostic on stderr. Failing 40-type modules are bisected to the single offending type. non-trivial = (option set, composite type)' % (
                         ','.join(fams), len(sets), ','.join(OPTS.values()), 'two combined sets' if args.tier == 'quick' else 'all pairs and all together', ' '.join(STRICT)),
                samples=samples, option_sets=stats, trusted_base=['gcc/g++ diagnostics', 'drv/xform.c lint'])
     return chk.finish(cov)
